@@ -1049,9 +1049,14 @@ def flow_facts(repo: Path, out_dir: Path, report: dict):
 				for part in qual.split('.'):
 					node = next((x for x in body if isinstance(x, (ast.FunctionDef, ast.ClassDef)) and x.name == part), None)
 					if node is None:
+						# a constant: the one assignment to that name at this level
+						asg = [x for x in body if isinstance(x, ast.Assign) and len(x.targets) == 1 and ast.unparse(x.targets[0]) == part]
+						node = asg[0] if len(asg) == 1 else None
 						break
 					body = node.body
-				if isinstance(node, ast.ClassDef):
+				if isinstance(node, ast.Assign):
+					ok = ['= ' + ast.unparse(node.value)] == want
+				elif isinstance(node, ast.ClassDef):
 					ok = class_shape(node) == want      # a class is pinned by its shape: bases, fields with their defaults, method names with decorators
 				else:
 					ok = isinstance(node, ast.FunctionDef) and [ast.unparse(x) for x in _body(node)] == want
